@@ -91,7 +91,7 @@ def gen(rng, ctx):
                 cd["edges"].append([rng.choice(drivers), pin])
             elif p in ("clk", "CK", "CP"):
                 cd["edges"].append(["clock", pin])
-            elif rng.random() < 0.25 and k > 0:
+            elif rng.random() < 0.25 and k > 0 and any(x[0] == f"q{k - 1}" for x in cd["nodes"]):
                 # driven by logic that only an earlier flop's Q reaches (dropped together with the pin)
                 gname = f"rq{k}_{p}"
                 cd["nodes"].append([gname, rng.choice(["not", "buf"]), False])
@@ -106,6 +106,8 @@ def gen(rng, ctx):
         for p in fl["outputs"]:
             pin = f"{inst}.{p}"
             cd["nodes"].append([pin, "bb_output", False])
+            if p == fl["q"] and k > 0 and rng.random() < 0.12:
+                continue  # a flop whose Q pin is left open (nothing reads its state)
             if p == fl["q"]:
                 w = f"q{k}"
                 isout = (not multi) or rng.random() < 0.25
@@ -131,6 +133,10 @@ def gen(rng, ctx):
         cd["nodes"] += [["qz", "buf", False], ["nz", "not", False]]
         cd["edges"] += [[f"{inst}.{fl['q']}", "qz"], ["qz", "nz"], ["nz", rng.choice(spare)]]
         nf += 1
+    if rng.random() < 0.1:
+        # a feed-through port: an input that is also an output and drives nothing else
+        cd["nodes"].append(["thru", "input", True])
+        ni += 1
     if rng.random() < 0.06:
         # a primary input / output net that carries the NAME of a flop instance (ff q0 (.Q(q0)) style)
         io_ = [x for x in nodes if tps[x] == "input" or x in G.cd_outputs(cd)]
@@ -332,11 +338,12 @@ def check(case, ctx):
     kept = []
     for i in prim:
         loads = [s for s in net.succs[i] if s not in removed_pins]
-        if loads or not case["remove_unloaded"]:
-            kept.append(i)
+        if loads or not case["remove_unloaded"] or i in net.outputs:
+            kept.append(i)  # an input that is also an output is never "unloaded"
     if any(i in net.outputs for i in prim):
-        ctx.count("skipped:input_is_output")
-        return
+        ctx.count("input_is_output")
+    if any(not net.succs.get(f"{i}.{Q}") for i in insts):
+        ctx.count("flop_with_open_q_pin")
     dnames = {i: f"{i}_{D}" for i in insts}
     qnames = {i: f"{i}_{Q}" for i in insts}
     expect_io = set(kept) | net.outputs | set(dnames.values()) | set(qnames.values())
@@ -422,5 +429,5 @@ def check(case, ctx):
 
 
 def gates(counters, table, tier):
-    need = ["flop_q_reaches_only_dropped_pin", "copy_edited_before_call", "iv_dict_reused", "feedthrough_state_pair", "state_output_is_a_free_input", "str_ignore_pins", "cmp:unroll", "cmp:sequential_unroll", "pairs:0", "pairs:1", "pairs:2", "iv:None", "iv:0", "iv:1", "iv:dict", "iv:x", "flop_outputs:True", "flop_outputs:False", "remove_unloaded:True", "remove_unloaded:False", "n:1", "n:3", "flops:1", "flops:2", "flops:3"]
+    need = ["flop_q_reaches_only_dropped_pin", "copy_edited_before_call", "iv_dict_reused", "feedthrough_state_pair", "state_output_is_a_free_input", "input_is_output", "flop_with_open_q_pin", "str_ignore_pins", "cmp:unroll", "cmp:sequential_unroll", "pairs:0", "pairs:1", "pairs:2", "iv:None", "iv:0", "iv:1", "iv:dict", "iv:x", "flop_outputs:True", "flop_outputs:False", "remove_unloaded:True", "remove_unloaded:False", "n:1", "n:3", "flops:1", "flops:2", "flops:3"]
     return [f"{k} seen {counters.get(k, 0)} times" for k in need if counters.get(k, 0) < 5]
